@@ -33,7 +33,10 @@ def replay_search(work, groups, coloc, out, budget):
     order = sorted(work, key=lambda l: -tot[l])  # stable: insertion order among ties (tried first)
     tiegroups = [list(g) for _, g in itertools.groupby(order, key=lambda l: tot[l])]
     scale = max([abs(v) for v in tot.values()] + [1.0])
-    eps = EPS * scale
+    # integer costs below 2**53 add up exactly in any order: "least loaded" is then an exact comparison. Fractional costs may
+    # be summed in another order by the code under test: allow rounding (1e-12 relative), not a thousandth of a millionth
+    all_int = all(float(c).is_integer() for fs in work.values() for c in fs.values()) and sum(abs(v) for v in tot.values()) < 2 ** 52
+    eps = 0.0 if all_int else 1e-12 * scale * max(1, len(work))
 
     def place_layer(l, loads):
         if not work[l]:
@@ -207,9 +210,14 @@ def random_case(rng):
         if rng.random() < 0.3 and len(groups) > 1:
             groups.pop()  # not covering the world
     nl = rng.choice([1, 2, 3, 5, 8, 13, 40])
-    fam = rng.choice(['small', 'ties', 'zeros', 'huge', 'float', 'geom', 'cubes', 'cubes'])
+    fam = rng.choice(['small', 'ties', 'zeros', 'huge', 'float', 'geom', 'cubes', 'cubes', 'near'])
+    near_base = rng.choice([50257, 8193, 4097]) ** 3
 
     def cost(i):
+        if fam == 'near':
+            # a few very expensive items that differ by a hair, then cheap ones: which group / worker is least loaded is decided
+            # far below 1e-9 of the load
+            return near_base + rng.randint(1, 5000) if i < 4 else rng.choice([32, 16, 8]) ** rng.choice([2, 3])
         if fam == 'small':
             return rng.choice([0, 1, 2, 3, 5, 8])
         if fam == 'ties':
